@@ -292,11 +292,14 @@ def run_impl_hist(case):
         prev = (ref, est)
         out = {"seen_ref": mc.seen_poses(ref), "seen_est": mc.seen_poses(est)}
         out["res"] = run_rpe(case, ref, est, m)
-        out["pairs"] = evo_pairs(case, mc.make_path(case["mode"], call["ref"] if case["from_ref"] else call["est"])) \
-            if len(call["ref"]) == len(call["est"]) else []
         if "ok" in out["res"] and out["res"]["ok"]:
             P1.after_call(m, out, call.get("unit_after"))
         outs.append(out)
+    # the pair selection the model takes as input is computed on fresh objects only after the whole history has run: no
+    # call into evo's selection code may sit between two evaluations of the history (it would hide state kept between them)
+    for call, out in zip(case["calls"], outs):
+        out["pairs"] = evo_pairs(case, mc.make_path(case["mode"], call["ref"] if case["from_ref"] else call["est"])) \
+            if len(call["ref"]) == len(call["est"]) else []
     return outs
 
 
